@@ -71,3 +71,8 @@ add('C09', 'Hypothesis-generated multi-step deformation histories (segment kinds
     'the library increment and its minimality against 24 admissible alternatives, and for rate-independent laws idempotence and before/after-commit equality. Sampling of histories.',
     'Model tolerance 1e-10*Y0 (x10) plus 1e-9 relative rounding; for rate-sensitive laws the surface is known only up to the overstress of an increment of 8 ulp of eqps; '
     'known findings D16 (rate-sensitive root solve cannot localise increments < 1e-12 of the bracket) and D1 (compiled vs op-by-op discrepancies) are excluded by mechanism-specific predicates.')
+add('C11', 'Hypothesis-generated (F, dt) histories with holds for the 1- and 3-branch models; invariant-over-history oracles with checker-side stored-energy and limit formulas',
+    'Generated histories (load / unload / hold, dt/tau over twelve decades, deformation classes with rotation): dissipation >= 0 and det Fv = 1 after every step, '
+    'monotone decay of the stored non-equilibrium energy (recomputed from the committed state in numpy) during holds, and the instantaneous / equilibrium limits of the '
+    'virgin energy. Sampling of histories and constants.',
+    'Checker-side log strains by numpy eigh; limit bounds 3*(dt/tau) resp. 3*(tau/dt) times the non-equilibrium energy plus 50 ulp of the stiffness; D1 matched by op-by-op re-evaluation.')
